@@ -426,6 +426,11 @@ static void read_macro_definition(Token **rest, Token *tok) {
   if (tok->at_bol || tok->kind != TK_IDENT)
     error_tok(tok, "macro name must be an identifier");
   tok = copy_line(rest, tok);
+  for (Token *t = tok; t->kind != TK_EOF; t = t->next) {
+    t->line_delta = t->file->line_delta;
+    t->filename = t->file->display_name;
+    t->has_line_delta = true;
+  }
   char *name = strndup(tok->loc, tok->len);
   tok = tok->next;
 
@@ -842,8 +847,12 @@ static bool expand_macro(Token **rest, Token *tok) {
     Token *body = add_hideset(paste_objlike(m->body), hs);
     for (Token *t = body; t->kind != TK_EOF; t = t->next) {
       t->origin = tok;
-      if (!strcmp(t->file->name, "<built-in>"))
+      if (!strcmp(t->file->name, "<built-in>")) {
         t->line_no = tok->line_no;
+        t->line_delta = tok->file->line_delta;
+        t->filename = tok->file->display_name;
+        t->has_line_delta = true;
+      }
     }
     *rest = append(body, tok->next);
     inherit_flags(*rest, tok->next, tok);
@@ -874,8 +883,12 @@ static bool expand_macro(Token **rest, Token *tok) {
     t->origin = macro_token;
     // Made-up tokens have no line of their own: they are on the line
     // of the invocation, for debug information as for diagnostics.
-    if (!strcmp(t->file->name, "<built-in>"))
+    if (!strcmp(t->file->name, "<built-in>")) {
       t->line_no = macro_token->line_no;
+      t->line_delta = macro_token->file->line_delta;
+      t->filename = macro_token->file->display_name;
+      t->has_line_delta = true;
+    }
   }
   *rest = append(body, tok->next);
   inherit_flags(*rest, tok->next, macro_token);
@@ -1084,8 +1097,13 @@ static Token *preprocess2(Token *tok) {
 
     // Pass through if it is not a "#".
     if (!is_hash(tok)) {
-      tok->line_delta = tok->file->line_delta;
-      tok->filename = tok->file->display_name;
+      // A token gets the presumed file name and line adjustment that
+      // are in force where it is written. The tokens of a macro body
+      // got theirs when the macro was defined.
+      if (!tok->has_line_delta) {
+        tok->line_delta = tok->file->line_delta;
+        tok->filename = tok->file->display_name;
+      }
       cur = cur->next = tok;
       tok = tok->next;
       continue;
